@@ -471,7 +471,7 @@ def _install():
             post = snap(state)
             if exc is None:
                 if len(state.flow_states) > n_before:
-                    res = {"r": "create", "source": event.arguments.get("source_flow_instance_uid")}
+                    res = {"r": "create", "source": event.arguments.get("source_flow_instance_uid"), "new_uid": a.get("flow_instance_uid")}
                     # the new instance is not part of the abstract pre-state: drop it from the comparison
                     post["flows"] = [f for f in post["flows"] if f["uid"] != a.get("flow_instance_uid")]
                 elif any(f1["activated"] > f0["activated"] for f0, f1 in zip(pre["flows"], post["flows"])):
@@ -730,6 +730,8 @@ def _cmp_record(rec, m):
         w = {"r": r["r"]}
         if r["r"] == "create":
             w["source"] = fu.get(r["source"])
+            if r.get("new_uid") in late_starts({"records": [rec]}):
+                return f"startflow {rec['info']['fid']}: implementation created an instance for an ended sender, model {g}"
         if r["r"] == "reused":
             w["inst"] = fu.get(r["inst"])
         if w != g:
@@ -870,9 +872,53 @@ def oracle(case, obs):
     return None
 
 
+def late_starts(obs):
+    """instances created by a StartFlow event that was processed after its sender had finished/failed
+    (and that is not the restart of an activated flow): region of the open finding `start-after-parent-ended`"""
+    late = set()
+    for r in obs.get("records", []):
+        if r["op"] == "startflow" and r.get("res") and r["res"]["r"] == "create":
+            i = r["info"]
+            src = [f for f in r["pre"]["flows"] if f["uid"] == i["source"]]
+            if src and src[0]["status"] in _DONE and src[0]["fid"] != i["fid"]:
+                late.add(r["res"].get("new_uid"))
+    return late
+
+
 def signature(case, obs, msg):
     if not msg:
         return None
+    late = late_starts(obs)
+    if not late:
+        return None
+    if msg.startswith("startflow") and "ended sender" in msg:
+        return "start-after-parent-ended"
+    # an orphan (or a still-running activated flow) is attributed to the finding when it, or one of its ancestors,
+    # was created by such a late StartFlow
+    if "is still running" in msg or "has a running activator" in msg or "running instances" in msg or "got no Stop" in msg:
+        parents = {}
+        for s in obs.get("steps", []):
+            for f in s.get("flows", []):
+                parents[f["uid"]] = f["parent"]
+        for uid in list(parents):
+            if uid in msg:
+                cur, seen = uid, set()
+                while cur is not None and cur not in seen:
+                    if cur in late:
+                        return "start-after-parent-ended"
+                    seen.add(cur)
+                    cur = parents.get(cur)
+        # descendants of a late instance may also hold the flow/action named in the message
+        for uid in late:
+            stack, seen = [uid], set()
+            while stack:
+                x = stack.pop()
+                if x in seen:
+                    continue
+                seen.add(x)
+                if x in msg:
+                    return "start-after-parent-ended"
+                stack.extend(c for c, p in parents.items() if p == x)
     return None
 
 
